@@ -184,6 +184,47 @@ def variants(F, t1, t2, tick=lambda: None, extra_first=False, which=None):
             return [prefix + "c0", prefix + "a", prefix + "b"]
     emc = EMC()
     out.append(Variant("em_constant_first", emc.run, (), [t1, t2], [emc]))
+    # 11. EditableModule / nn.Module holding a tensor that does not require grad BETWEEN and AFTER the leaves (round-3 seed
+    #     C04/8: a substitution counted as "identical" as soon as one slot was unchanged)
+    class EMM(xt.EditableModule):
+        def __init__(self):
+            self.a = t1
+            self.c1 = torch.ones(3, dtype=t1.dtype)
+            self.b = t2
+            self.c2 = torch.ones((), dtype=t1.dtype)
+
+        def run(self, *lead):
+            return call(lead, self.a * self.c1, self.b * self.c2)
+
+        def getparamnames(self, methodname, prefix=""):
+            return [prefix + "a", prefix + "c1", prefix + "b", prefix + "c2"]
+    emm = EMM()
+    out.append(Variant("em_constant_middle_last", emm.run, (), [t1, t2], [emm]))
+
+    class NNF(torch.nn.Module):
+        def __init__(self):
+            super().__init__()
+            self.p1 = torch.nn.Parameter(t1.detach().clone(), requires_grad=t1.requires_grad)
+            self.frozen = torch.nn.Parameter(torch.ones(3, dtype=t1.dtype), requires_grad=False)
+            self.p2 = torch.nn.Parameter(t2.detach().clone(), requires_grad=t2.requires_grad)
+
+        def forward(self, *lead):
+            return call(lead, self.p1 * self.frozen, self.p2)
+    nnf = NNF()
+    out.append(Variant("nn_frozen_parameter", nnf.forward, (), [nnf.p1, nnf.p2], [nnf]))
+    # 12. tied weights: one nn.Parameter registered under two names, the function uses it through BOTH (finding F36:
+    #     named_parameters() lists it once, so only the first name was substituted in the backward pass)
+    class NNT(torch.nn.Module):
+        def __init__(self):
+            super().__init__()
+            self.p1 = torch.nn.Parameter(t1.detach().clone(), requires_grad=t1.requires_grad)
+            self.p1_again = self.p1
+            self.p2 = torch.nn.Parameter(t2.detach().clone(), requires_grad=t2.requires_grad)
+
+        def forward(self, *lead):
+            return call(lead, 0.25 * self.p1 + 0.75 * self.p1_again, self.p2)
+    nnt = NNT()
+    out.append(Variant("nn_tied_parameters", nnt.forward, (), [nnt.p1, nnt.p2], [nnt]))
     if which is not None:
         out = [v for v in out if v.name in which]
     return out
